@@ -34,11 +34,11 @@ ASSUMPTIONS = [
     "the loaded-table set at each edit is a legitimate input and is held equal in the reference replica",
     "optional native dependencies present in /venv are used as installed; their presence is not varied here",
 ]
-EXPECTED_PROBES = ["order.pairs", "save.checked", "op.savexml", "op.failsave.compile", "op.failsave.dest", "lazy.True", "lazy.None", "lazy.False", "edit.reorder", "edit.subset", "edit.scale", "edit.instantiate"]
+EXPECTED_PROBES = ["order.pairs", "pipe.ok", "pipe.build", "pipe.merge", "pipe.instance", "pipe.fea", "pipe.subset", "pipe.ttx", "save.checked", "op.savexml", "op.failsave.compile", "op.failsave.dest", "lazy.True", "lazy.None", "lazy.False", "edit.reorder", "edit.subset", "edit.scale", "edit.instantiate"]
 
 TIERS = {
-    "quick": {"budget_s": 170, "determinism_sample": 16, "n": {"hist": 2700, "hist_fail": 1000, "hist_ensure": 700, "second_save": 900, "clock": 400, "order": 32, "hashseed": 0}, "minimise_s": 60, "max_minimise": 3},
-    "thorough": {"budget_s": 1500, "determinism_sample": 200, "n": {"hist": 16000, "hist_fail": 5000, "hist_ensure": 4000, "second_save": 1400, "clock": 1500, "order": 400, "hashseed": 0}, "minimise_s": 180, "max_minimise": 6},
+    "quick": {"budget_s": 170, "determinism_sample": 16, "n": {"hist": 2700, "hist_fail": 1000, "hist_ensure": 700, "second_save": 900, "clock": 400, "pipe": 500, "order": 40}, "minimise_s": 60, "max_minimise": 3},
+    "thorough": {"budget_s": 1500, "determinism_sample": 200, "n": {"hist": 16000, "hist_fail": 5000, "hist_ensure": 4000, "second_save": 1400, "clock": 1500, "pipe": 6000, "order": 500}, "minimise_s": 180, "max_minimise": 6},
 }
 
 OBSERVE_OPS = ["touch", "contains", "keys", "glyphorder", "glyphset", "bestcmap", "tabledata", "save", "savexml", "deepcopy", "revmap", "ensure_table"]
@@ -87,6 +87,7 @@ def batches(ctx):
         {"name": "hist_fail", "n": n["hist_fail"], "fault_free": False},
         {"name": "second_save", "n": n["second_save"], "fault_free": True},
         {"name": "clock", "n": n["clock"], "fault_free": True},
+        {"name": "pipe", "n": n.get("pipe", 0), "fault_free": True},
         {"name": "order", "n": n.get("order", 0), "fault_free": True},
     ]
 
@@ -179,6 +180,10 @@ def _gen_op(r, batch, font_has_fvar):
 
 def generate(ctx, batch, idx):
     r = ctx.rng(batch, idx)
+    if batch == "pipe":
+        from props import c16_pipes
+
+        return c16_pipes.generate(ctx, r, idx)
     key = _pick_font(r)
     if key is None:
         return None
@@ -221,14 +226,19 @@ def generate(ctx, batch, idx):
             "xml": r.random() < 0.5,
             "ops": [],
         }
+    if batch == "pipe":
+        from props import c16_pipes
+
+        return c16_pipes.generate(ctx, r, idx)
     if batch == "order":
-        # process-history independence: a target run alone in a fresh interpreter vs after a prefix of other runs
+        # replicas of one run in fresh interpreters: alone, alone under another PYTHONHASHSEED,
+        # and after a prefix of other runs (process-history independence)
         pre = []
-        for _ in range(r.randint(8, 40)):
-            b = r.choice(["hist", "hist", "hist_fail", "hist_ensure", "second_save", "clock"])
+        for _ in range(r.randint(6, 30)):
+            b = r.choice(["hist", "hist_fail", "hist_ensure", "second_save", "clock", "pipe", "pipe", "pipe"])
             pre.append([b, r.randrange(2000)])
-        tb = r.choice(["hist", "second_save", "second_save", "hist_ensure"])
-        return {"kind": "order", "target": [tb, r.randrange(2000)], "ops": pre, "font": key}
+        tb = r.choice(["hist", "second_save", "hist_ensure", "pipe", "pipe", "pipe"])
+        return {"kind": "order", "target": [tb, r.randrange(2000)], "ops": pre, "font": key, "hashseed": r.randrange(1, 1 << 31)}
     if batch == "clock":
         return {
             "kind": "clock",
@@ -733,12 +743,16 @@ def execute(ctx, h):
     logging.disable(logging.CRITICAL)
     scratch = Scratch()
     try:
-        src = corpus.gen2(h["font"]) if not h.get("original") else corpus.raw(h["font"].split(":", 1)[1])
-        if src is None:
-            return {"events": ["ineligible"], "nontrivial": False}
         kind = h.get("kind", "hist")
         if kind == "order":
             return exec_order(ctx, h)
+        if kind == "pipe":
+            from props import c16_pipes
+
+            return c16_pipes.execute(ctx, h)
+        src = corpus.gen2(h["font"]) if not h.get("original") else corpus.raw(h["font"].split(":", 1)[1])
+        if src is None:
+            return {"events": ["ineligible"], "nontrivial": False}
         if kind == "hist":
             return exec_hist(ctx, h, src, scratch)
         if kind == "second_save":
@@ -758,9 +772,9 @@ def exec_order(ctx, h):
     import sys
     from sim import VERIF
 
-    def fresh(keys):
+    def fresh(keys, hashseed="0"):
         spec = ",".join("%s:%d" % (b, i) for b, i in keys)
-        env = dict(os.environ, PYTHONHASHSEED="0")
+        env = dict(os.environ, PYTHONHASHSEED=str(hashseed))
         cmd = [sys.executable, os.path.join(VERIF, "check"), ID, "--run-many", spec, "--seed", str(ctx.seed), "--tier", ctx.tier]
         cp = subprocess.run(cmd, capture_output=True, text=True, env=env, timeout=RUN_TIMEOUT_S - 20)
         out = {}
@@ -772,8 +786,16 @@ def exec_order(ctx, h):
 
     t = tuple(h["target"])
     alone, cp1 = fresh([t])
+    other, cp3 = fresh([t], hashseed=h.get("hashseed", 12345))
     after, cp2 = fresh([tuple(k) for k in h["ops"]] + [t])
-    res = {"events": [alone.get(t), after.get(t)], "probes": {"order.pairs": 1}, "states": [], "known": [], "nontrivial": True}
+    res = {"events": [alone.get(t), other.get(t), after.get(t)], "probes": {"order.pairs": 1, "order.target." + t[0]: 1}, "states": [], "known": [], "nontrivial": True}
+    if t in alone and t in other and alone[t] != other[t]:
+        res["violation"] = {
+            "class": "output-depends-on-hash-seed",
+            "detail": "run %s:%d gives digest %s under PYTHONHASHSEED=0 but %s under PYTHONHASHSEED=%s (each alone in a fresh interpreter)" % (t[0], t[1], str(alone[t])[:12], str(other[t])[:12], h.get("hashseed")),
+            "sig": {},
+        }
+        return res
     if t not in alone or t not in after:
         if alone.get(t, 0) is None or after.get(t, 0) is None or (t in alone) != (t in after):
             pass
